@@ -767,7 +767,8 @@ func (path *Path) PrependAsn(asn uint32, repeat uint8, confed bool) {
 		p := bgp.NewAs4PathParam(segType, asns)
 		asPath.Value = append([]bgp.AsPathParamInterface{p}, asPath.Value...)
 	}
-	path.setPathAttr(asPath)
+	// the segments have grown: let the constructor compute length and flags
+	path.setPathAttr(bgp.NewPathAttributeAsPath(asPath.Value))
 }
 
 func isPrivateAS(as uint32) bool {
